@@ -121,7 +121,7 @@ static std::vector<Fault> enumerate(const std::vector<char> &b, int level, uint6
   const long L = (long)b.size();
   vrt::Rng r(seed ^ (index * 7919));
   // thorough: every offset of every stream up to 6000 bytes; the four big legacy files (37..121 KB) at about 4000 evenly spread offsets each
-  const long step = level >= 2 ? (L <= 6000 ? 1 : (L + 3999) / 4000) : (L <= 300 ? 1 : (L <= 1500 ? 5 : 23));
+  const long step = level >= 2 ? (L <= 6000 ? 1 : (L + 3999) / 4000) : (L <= 400 ? 1 : (L <= 1500 ? 5 : 23));
   const long phase = (long)(r.below((uint64_t)step));
   fs.push_back({8, 0, 0, 0});
   for (long t = 0; t < L; t += (level >= 2 ? step : (L <= 600 ? 1 : 3))) fs.push_back({0, t, 0, 0});
@@ -131,7 +131,7 @@ static std::vector<Fault> enumerate(const std::vector<char> &b, int level, uint6
     // field-shaped values: the zero-run token of the rANS table ((run << 2) | 3, run 0..9) and a nibble equal to a small dimension count (packed 4-bit fields)
     if (level >= 1 || L <= 400) {
       for (int run = 0; run < 10; ++run) { const int val = (run << 2) | 3; if (val != v) fs.push_back({1, o, val, 0}); }
-      for (int d : {2, 3, 4}) { const int hi = (v & 0x0F) | (d << 4), lo = (v & 0xF0) | d; if (hi != v) fs.push_back({1, o, hi, 0}); if (lo != v) fs.push_back({1, o, lo, 0}); }
+      for (int d : {2, 3, 4, 5, 6}) { const int hi = (v & 0x0F) | (d << 4), lo = (v & 0xF0) | d; if (hi != v) fs.push_back({1, o, hi, 0}); if (lo != v) fs.push_back({1, o, lo, 0}); }
     }
     if (level >= 1 || o % 2 == 0) for (long long w : {0ll, 0x7FFFFFFFll, 0xFFFFFFFFll, 0x80000000ll}) fs.push_back({2, o, w, 0});
     for (int p = 0; p < 10; ++p) if (level >= 1 || (o + p) % 3 == 0 || (p >= 5 && o < 64)) fs.push_back({3, o, p, 0});
